@@ -324,7 +324,7 @@ func c17Exec(x *Ctx) {
 				}
 				return fmt.Sprintf("new-%d", k)
 			}
-			kind := r.Intn(12)
+			kind := r.Intn(13)
 			if !dotu && (kind == 2 || kind == 3 || kind == 11) {
 				kind = 0
 			}
@@ -670,6 +670,79 @@ func c17Exec(x *Ctx) {
 				clunk(f)
 				compare(what)
 				x.Probe("chown")
+			case 12: // several fields in one Twstat: permission bits, name, length, mtime (applied in that order)
+				if len(files) == 0 {
+					continue
+				}
+				tgt := files[r.Intn(len(files))]
+				if fi, err := os.Lstat(filepath.Join(B, tgt)); err != nil || !fi.Mode().IsRegular() {
+					continue
+				}
+				f, ok := walkTo(tgt)
+				if !ok {
+					continue
+				}
+				opened := maybeOpen(f, tgt)
+				var parts []string
+				st := nullStat(func(*Stat) {})
+				var twin []func() error
+				cur := filepath.Join(B, tgt)
+				newRel := tgt
+				if r.Bool() {
+					m := uint32(r.Pick(0o600, 0o644, 0o755))
+					st.Mode = m
+					parts = append(parts, fmt.Sprintf("mode=%o", m))
+					twin = append(twin, func() error { return os.Chmod(cur, os.FileMode(m)) })
+				}
+				if r.Pct(70) {
+					nn := newName()
+					st.Name = nn
+					newRel = filepath.Join(filepath.Dir(tgt), nn)
+					parts = append(parts, fmt.Sprintf("name=%q", nn))
+					twin = append(twin, func() error {
+						err := syscall.Rename(cur, filepath.Join(B, newRel))
+						if err == nil {
+							cur = filepath.Join(B, newRel)
+						}
+						return err
+					})
+				}
+				if r.Pct(60) {
+					l := uint64(r.Pick(0, 3, 5000))
+					st.Length = l
+					parts = append(parts, fmt.Sprintf("length=%d", l))
+					twin = append(twin, func() error { return os.Truncate(cur, int64(l)) })
+				}
+				mt := uint32(0)
+				if r.Pct(60) {
+					mt = uint32(1_300_000_000 + r.Intn(100000000))
+					st.Mtime = mt
+					parts = append(parts, fmt.Sprintf("mtime=%d", mt))
+				}
+				if len(parts) < 2 {
+					clunk(f)
+					continue
+				}
+				what := fmt.Sprintf("Twstat(%q, %s)", tgt, strings.Join(parts, ", ")) + opened
+				rr := call(&Msg{Type: Twstat, Fid: f, Stat: st})
+				if rr == nil || rr.M == nil {
+					return
+				}
+				var eb error
+				for _, step := range twin {
+					if eb = step(); eb != nil {
+						break
+					}
+				}
+				c17Outcome(x, rr.M, eb, what, before, A, B, "", dotu)
+				if rr.M.Type == Rwstat && eb == nil && mt != 0 {
+					if fi, err := os.Lstat(filepath.Join(A, newRel)); err == nil && fi.ModTime().Unix() != int64(mt) {
+						x.Violate("t1-tree-diff", "after %s the file's mtime is %d", what, fi.ModTime().Unix())
+					}
+				}
+				clunk(f)
+				compare(what)
+				x.Probe("wstat-several-fields")
 			case 10: // mtime
 				if len(files) == 0 {
 					continue
